@@ -34,7 +34,7 @@ type recClient struct {
 	mu     *sync.Mutex
 	log    *[]subRequest
 	hookFn func()
-	gate   func(text string) // when set: called with the text of every non-introspection request before it is executed
+	gate   func(text string) error // when set: called with the text of every non-introspection request before it is executed; an error is returned to the gateway as the service's failure
 }
 
 func cloneSS(ss *graphql.SelectionSet) *graphql.SelectionSet {
@@ -169,7 +169,9 @@ func (c *recClient) Execute(ctx context.Context, req *federation.QueryRequest) (
 			c.hookFn()
 		}
 		if gate := c.gate; gate != nil {
-			gate(rec.Text)
+			if gerr := gate(rec.Text); gerr != nil {
+				return nil, gerr
+			}
 		}
 	}
 	return c.inner.Execute(ctx, req)
@@ -338,12 +340,16 @@ func runMonolith(c *Case, w *fedgen.World) (interface{}, string) {
 			errs = "parse: " + err.Error()
 			return
 		}
-		if err := graphql.PrepareQuery(context.Background(), schema.Query, q.SelectionSet); err != nil {
+		root := schema.Query
+		if q.Kind == "mutation" {
+			root = schema.Mutation
+		}
+		if err := graphql.PrepareQuery(context.Background(), root, q.SelectionSet); err != nil {
 			errs = "prepare: " + err.Error()
 			return
 		}
 		ex := graphql.NewExecutor(graphql.NewImmediateGoroutineScheduler())
-		v, err := ex.Execute(context.Background(), schema.Query, nil, q)
+		v, err := ex.Execute(context.Background(), root, nil, q)
 		if err != nil {
 			errs = "execute: " + err.Error()
 			return
